@@ -123,6 +123,8 @@ pub struct Machine {
     pub block: u32,
     pub iret_frame: [u64; 5], // rip, cs, rflags, rsp, ss as popped by iretq
     pub iret_done: bool,
+    pub iret_expect: [u64; 5],
+    pub iret_expect_on: bool,
 }
 
 pub const RESET: Machine = Machine {
@@ -155,6 +157,8 @@ pub const RESET: Machine = Machine {
     block: 0,
     iret_frame: [0; 5],
     iret_done: false,
+    iret_expect: [0; 5],
+    iret_expect_on: false,
 };
 
 pub static mut M: Machine = RESET;
@@ -459,6 +463,11 @@ impl Machine {
         self.iret_frame = f;
         self.iret_done = true;
         self.ev(EV_IRETQ, f[0], f[1], f[2], o);
+        if self.iret_expect_on {
+            // the code segment / stack segment operands are 16-bit selectors zero-extended by `push r64`
+            crate::verif_oracle::vp!(C13, f == self.iret_expect, "iretq did not pop exactly the frame's RIP, CS, RFLAGS, RSP, SS");
+            crate::verif_oracle::vp!(C13, self.sp == 0 && !self.stack_fault, "iretq sequence left the stack unbalanced");
+        }
     }
 }
 
